@@ -101,27 +101,8 @@ theorem C18_write_consumes_one_id (s : St) (si : BitVec 16) (ppi : BitVec 32) (l
       u = (ppi != BitVec.ofNat 32 PayloadTypeWebRTCDCEP && st.unordered) ∧
       ((write s si ppi len dl).1.snd.streams si).map ids = some (adv s.snd.cfg.useInterleaving u (ids st)) ∧
       ((write s si ppi len dl).1.snd.streams si).map (·.buffered) = some (st.buffered + BitVec.ofNat 64 len) ∧
-      (∀ j, j ≠ si → (write s si ppi len dl).1.snd.streams j = s.snd.streams j) := by
-  rcases write_cases s si ppi len dl with ⟨_, e2⟩ | ⟨st, hst, hl, _, _, _, hmp, _, _, e⟩ | ⟨st, _, _, _, _, _, _, _, _, _, e⟩
-  · rw [hr] at e2; simp [accepted, hn] at e2
-  · rw [e] at hr ⊢
-    simp only [WRes.ok.injEq] at hr
-    obtain ⟨p1, p2⟩ := packetize_shape s.snd.cfg st si s.snd.nextMsg ppi len hmp
-    obtain ⟨q1, q2, _, q4, _, q6, _⟩ := packetize_spec s.snd.cfg st si s.snd.nextMsg ppi len hmp
-    refine ⟨st, (Sender.packetize s.snd.cfg st si s.snd.nextMsg ppi len).chunks, (Sender.packetize s.snd.cfg st si s.snd.nextMsg ppi len).unordered,
-      hst, hr.symm, rfl, p1, q4, ?_, rfl, ?_, ?_, ?_⟩
-    · intro i c hc
-      obtain ⟨a1, _, a3, a4, a5, a6, a7, a8, _⟩ := p2 i c hc
-      obtain ⟨b1, b2, _⟩ := q6 c (List.mem_of_getElem? hc)
-      exact ⟨a1, a3, a4, a5, a6, a7, b1, b2, a8⟩
-    · show ((if si = si then some (Sender.packetize s.snd.cfg st si s.snd.nextMsg ppi len).st else s.snd.streams si)).map ids = _
-      simp only [if_true, Option.map_some, ids_packetize]
-    · show ((if si = si then some (Sender.packetize s.snd.cfg st si s.snd.nextMsg ppi len).st else s.snd.streams si)).map (·.buffered) = _
-      simp only [if_true, Option.map_some, q2]
-    · intro j hj
-      show (if j = si then some (Sender.packetize s.snd.cfg st si s.snd.nextMsg ppi len).st else s.snd.streams j) = _
-      simp [hj]
-  · rw [e] at hr; cases hr
+      (∀ j, j ≠ si → (write s si ppi len dl).1.snd.streams j = s.snd.streams j) :=
+  write_ok_shape s si ppi len dl n hr hn
 
 example :
     let s0 := run (init { mtu := 1200, maxPayload := 1168 } false 100 65536) [.openS 1 false 0 0, .write 1 53 5 none]
